@@ -133,12 +133,12 @@ def emit(kind):
     for tag, fs in twins:
         t = " ".join(f"{'p' if ty_ in ('Probe', 'MProbe') else 'q'}{i}" for i, (_, ty_) in enumerate(fs))
         m = f"{prefix.lower()}twin_{tag}"
-        run.append(f'    out.push(run_{kind}_shape("{prefix}Twin_{tag}", "twin", "{t}", seed, |l, n| {m}::build(l, n), |s, e, r| s.update(e, r), |s, e, r| {m}::hand(s, e, r)));')
+        run.append(f'    out.push(run_{kind}_shape("{prefix}Twin_{tag}", "twin", "{t}", seed, |l, n| {m}::build(l, n), |s, e, r| s.update(e, r), |s, e, r| {m}::hand(s, e, r), |s, e, r| s.update(e, r), |s, e, r| {m}::hand(s, e, r)));')
     for nm in order:
         s = shapes[nm]
         t = tree(s, shapes, [0])
         style = s["style"]
-        run.append(f'    out.push(run_{kind}_shape("{nm}", "{style}", "{t}", seed, |l, n| build_{nm}(l, n), |s, e, r| s.update(e, r), |s, e, r| hand_{nm}(s, e, r)));')
+        run.append(f'    out.push(run_{kind}_shape("{nm}", "{style}", "{t}", seed, |l, n| build_{nm}(l, n), |s, e, r| s.update(e, r), |s, e, r| hand_{nm}(s, e, r), |s, e, r| s.update(e, r), |s, e, r| hand_{nm}(s, e, r)));')
     run.append("}")
     L.append("\n".join(run))
     return "\n\n".join(L)
